@@ -323,7 +323,7 @@ pub fn hex_name(s: &str) -> String {
 
 /// C02 — protocol: one call per item, carrying exactly the row's inputs; defaults first; quiet after None
 pub fn oracle_c02(case: &Case, lines: &[String]) -> Result<(), String> {
-    let ls = significant(lines);
+    let ls: Vec<String> = significant(lines).into_iter().filter(|l| !l.starts_with("rng ")).collect();
     let mut i = 0;
     // skip parse / bind
     while i < ls.len() && (ls[i].starts_with("parse") || ls[i].starts_with("bind")) {
